@@ -108,7 +108,7 @@ def has_table(stdout):
     return "Transactions for" in stdout or "Aggregate Gains" in stdout or " | " in stdout
 
 
-def cli_pass(res, st, rng, generated_bad, samples):
+def cli_pass(res, st, rng, generated_bad, samples, only=None):
     bindir, blog = common.build_bins()
     if bindir is None:
         res.violation("broken-correspondence", "the repository's binaries do not build: " + blog[-500:],
@@ -121,6 +121,8 @@ def cli_pass(res, st, rng, generated_bad, samples):
     usable = [l for l in generated_bad if all("\x00" not in s and "\r" not in s for s in l)]
     rng.shuffle(usable)
     bad_lists += usable[:8]
+    if only is not None:
+        bad_lists = only
     situations = [("valid-csv", [good_csv], []), ("invalid-csv", [INVALID_CSV], []), ("missing-file", [], ["/nonexistent-dir/none.csv"])]
     for specs in bad_lists:
         orc = I.oracle(specs)
@@ -152,6 +154,8 @@ def cli_pass(res, st, rng, generated_bad, samples):
                               {"symbol_base": specs, "situation": name, "files": files, "args": args,
                                "expected": "exit status != 0, stderr 'Error parsing --symbol-base: %s', no table" % orc[2],
                                "actual_impl": {"rc": rc, "stdout": out[:600], "stderr": err[:600]}})
+    if only is not None:
+        return
     # controls: a well-formed specification lets the run go on (table / the file's own error)
     rc, out, err, _ = corecheck.run_acb_cli(bindir, [good_csv], ["--symbol-base= FOO :10:100.005"])
     st["cli-control"] += 1
@@ -254,3 +258,30 @@ def run(res, ctx):
     lookup_pass(res, ctx, st)
     cli_pass(res, st, rng, generated_bad, samples)
     return st, samples
+
+
+def replay(res, ctx, rep):
+    """re-run one recorded list of specifications (text comparison; the binary too when the
+    replay came from the CLI pass)"""
+    specs = rep["symbol_base"]
+    if isinstance(specs, str):
+        specs = [specs]
+    if "symbol_base_bytes" in rep:
+        specs = [bytes(b).decode("utf-8") for b in rep["symbol_base_bytes"]]
+    imp = I.parse_harness(run_harness(ctx["exe"], "initspec", [I.enc_harness(specs)], nproc=1)[0])
+    mod = I.parse_model(run_model([I.enc_model(specs)], nproc=1, group="initspec")[0])
+    orc = I.oracle(specs)
+    d = compare_impl_oracle(specs, imp, orc)
+    dm = compare_impl_model(imp, mod)
+    base = {"symbol_base": specs, "expected": describe(orc), "actual_impl": describe(imp)}
+    if d is not None:
+        if d[0]:
+            res.violation("failing-input", "--symbol-base %r: %s" % (specs, d[1]), base)
+        else:
+            res.violation("broken-correspondence", "--symbol-base %r: %s" % (specs, d[1]), dict(base, theorem_or_projection=PROJECTION), found_input=False)
+    elif dm is not None:
+        res.violation("broken-correspondence", "--symbol-base %r: %s" % (specs, dm), dict(base, theorem_or_projection=PROJECTION), found_input=False)
+    if orc[0] == "err" and all("\x00" not in s and "\r" not in s for s in specs):
+        st = collections.Counter()
+        cli_pass(res, st, random.Random(0), [], [], only=[specs])
+    res.coverage.update({"evaluations": 1, "replayed": specs})
